@@ -15,7 +15,7 @@ sys.path.insert(0, os.path.dirname(os.path.dirname(os.path.abspath(__file__))))
 from sa import engine, facts, prog  # noqa: E402
 
 ALL = ["C01", "C02", "C03", "C04", "C05", "C06", "C07", "C08", "C09", "C10", "C11", "C12", "C13", "C14", "C15", "C16", "C17", "C18", "C19",
-       "C20", "C21", "C22", "C23", "C24", "C25", "C26", "C28", "C29", "C30"]
+       "C20", "C21", "C22", "C23", "C24", "C25", "C26", "C27", "C28", "C29", "C30"]
 
 
 class Progs:
@@ -97,7 +97,7 @@ def main(argv):
     if "--explain" in argv:
         return explain(argv[argv.index("--explain") + 1])
     if argv[0] == "--warm":
-        for cfg in (["default", "features"] + (["release"] if tier == "thorough" else [])):
+        for cfg in (["default", "features", "wasmhost"] + (["release"] if tier == "thorough" else [])):
             d, info = facts.build(cfg)
             print("warm", cfg, d, info)
         return 0
